@@ -25,10 +25,27 @@ def parse(filename):
 
 
 def patch(nodes, patch_dict):
+    renamed = {}
     for idx, node in enumerate(nodes):
         patches = patch_dict.get(node.name)
         if patches:
+            old_name = node.name
             nodes[idx] = _apply(node, patches)
+            if nodes[idx].name != old_name:
+                renamed[old_name] = nodes[idx].name
+    if renamed:
+        _rename_references(nodes, renamed)
+
+
+def _rename_references(nodes, renamed):
+    """ Members and typedefs that refer to a renamed node follow it. """
+    for node in nodes:
+        if isinstance(node, model.Typedef) and node.type_name in renamed:
+            node.type_name = renamed[node.type_name]
+        elif isinstance(node, (model.Struct, model.Union)):
+            for member in node.members:
+                if member.type_name in renamed:
+                    member.type_name = renamed[member.type_name]
 
 
 def _apply(node, patches):
